@@ -1145,7 +1145,7 @@ struct Hist {
     }
 
     //! 100 / 101 single-transaction clusters, one candidate conflicting with all of them
-    void ScenarioManyClusters()
+    void ScenarioManyClusters(bool many_101)
     {
         // 1. confirmed fan-out
         PoolSnap snap = SnapPool(node, false, true);
@@ -1161,7 +1161,7 @@ struct Hist {
         // 2. one pool transaction per fan-out coin
         std::vector<Spendable> coins;
         for (uint32_t n = 0; n < 104; ++n) coins.push_back(mp.gen.OutputOf(fan, n, snap.tip_height));
-        const size_t nvict = rng.coin() ? 100 : 101;
+        const size_t nvict = many_101 ? 101 : 100;
         std::vector<Spendable> ins;
         for (size_t i = 0; i < nvict; ++i) {
             CTransactionRef v = mp.gen.Build({coins[i]}, 1, FeeMode::ABS, 300 + (CAmount)rng.below(400), 2, 0, {}, {}, nullptr, &snap);
@@ -1260,7 +1260,7 @@ VH_CMD(rbf)
             const bool many = many_every > 0 && (c % (uint64_t)many_every) == 0;
             const int many_at = many ? (int)rng.below((uint64_t)nsteps) : -1;
             for (h.step = 0; h.step < nsteps; ++h.step) {
-                if (h.step == many_at) h.ScenarioManyClusters();
+                if (h.step == many_at) h.ScenarioManyClusters((c / (uint64_t)many_every) % 2 == 0);
                 h.Step();
             }
             h.SelfCheckDiagram();
